@@ -34,11 +34,13 @@ def find_assign(fi, name, nth=0):
 def formula_rule(ctx, rule, fi, node, want, relations=(), what="", key="", env=None, atom=None):
     """evaluate `node` in fi (with forward substitution) and compare with the spec formula `want`"""
     if node is None:
-        raise AnalysisError(rule, fi.site, f"expression for {what} not found")
+        ctx.unknown(rule, fi.site, f"expression for {what} not found", key=key)
+        return None
     try:
         got = expr_ratio(node, env if env is not None else local_env(fi.node), atom)
     except FormulaError as e:
-        raise AnalysisError(rule, fi.site, f"cannot evaluate {what}: {e}")
+        ctx.unknown(rule, fi.site, f"cannot evaluate {what}: {e}", key=key, where=loc(fi, node))
+        return None
     ok = equal_under(got, want, relations)
     ctx.check(ok, rule, fi.site, f"{what} = {want}" + (" (under the geometry relation hi = lo + n*dx)" if relations else ""),
               f"{what} evaluates to {got}; the specification is {want}", key=key, where=loc(fi, node),
